@@ -6,7 +6,84 @@ import Tuc.Props.LibLit
 import Tuc.Props.BoundsListLit
 
 /-!
-# Tuc.Props.WholeLit2 — (header to be completed)
+# Tuc.Props.WholeLit2 — the program with the callees of the literal pieces at statement level IS `tucMain`
+
+`Tuc.Model.WholeLit2.tucProgramLit2 align regexOk argv segs` is `Tuc.Model.WholeLit.tucProgramLit` in
+which the callees that `tucProgramLit` still reaches through a normal-form model — the text helpers
+of `cut_str.rs` and their regex twins, the `--json` writer and the UTF-8 validation, the bounds
+parser, `try_into_range` / `matches` / `complement` / `unpack` / `is_forward_only`, `print_bof` — are
+replaced by their statement-level transcriptions (table in the header of the model file).
+
+## Headline
+
+* **`tucProgramLit2_eq_tucProgramLit : InDomain2 regexOk argv segs → tucProgramLit2 align regexOk argv segs
+  = tucProgramLit regexOk argv segs`** and
+  **`tucProgramLit2_eq : InDomain2 regexOk argv segs → tucProgramLit2 align regexOk argv segs = tucMain regexOk argv segs`**
+  — every alignment oracle `align`, every argument vector, every input, every segmentation.
+  `InDomain2` (`programFits2B … = true`, decidable, `#guard`-able) is `WholeLit.InDomain` AND, when an
+  engine runs, `inputFits2B opt input`:
+  - `-b`: **the input is shorter than 2³¹ bytes**;
+  - fast lane: on every record the number of parts fits (`PartsFit`: fewer than 2³¹ − 1 delimiter
+    bytes in the record, or the scan stops early at a positive `i32` `last_interesting_field`);
+  - `-M`, `-l`, the general engine: nothing more than `InDomain`.
+  Both are forced by ONE component hypothesis, `parts_length < 2³¹` of `BoundsLit.tryIntoRange_eq`
+  (the cast `parts_length as i32`, userbounds.rs:221), now that `cut_bytes` (cut_bytes.rs:15) and
+  `output_parts` (fast_lane.rs:103) call the machine-integer `try_into_range`; the general engine had
+  it already (`FieldsFit`).  They CANNOT be dropped (§8):
+  - **`tucProgramLit2_ne_tucMain_on_2GiB_input`** / `tucProgramLit2_bytes_length_necessary` /
+    `readAndCutBytesLoop2_length_necessary`: `tuc -b 1:` on an input of `2³¹ ≤ len mod 2³²` bytes (one
+    read; `WholeLit.InDomain` holds): the program made of the Rust statements ends with exit status 1
+    ("Out of bounds: 1") and prints NOTHING, `tucProgramLit` and `tucMain` print the input.
+    **REACHABLE** — any file of 2 GiB to 4 GiB; from 4 GiB on only `len mod 2³²` counts
+    (`BoundsLit.tryIntoRange_mod`): `tuc -b 1:` on 4 GiB + k bytes silently prints the first k bytes.
+    GENUINE DEFECT of the Rust code (`read_and_cut_bytes` holds the whole input in one `Vec`, so the
+    input sizes in question are legitimate on a 64-bit machine); the same truncation as the one
+    `Tuc.Props.BoundsLit` / `CutStrLit` report for 2³¹ fields in one record, but here the count is BYTES
+    OF INPUT, not fields of one line.
+  - `outputPartsLit2_length_necessary`: one call of `output_parts` with `2³¹ + 1` entries in `fields`
+    (a record with 2³¹ − 1 delimiters; the `i32` counter `curr_field` still fits, `CounterFits` holds)
+    returns `Err` where `Tuc.Model.FastLoop` does not.  Reachable with a 2 GiB record.
+* NO hypothesis on the regex bag at program level: `compileBag_ok` (`Tuc.Props.MainLevel`) — the bag
+  `main` stores is the `\b|\B` bag of `-c` or `Re.bag r`, both honour the contract of `find_iter`
+  (`RegexBag.OK`).  Engine by engine the contract is the explicit hypothesis `BagOK opt`; it cannot be
+  dropped there (`badBag`: `trim_regex` slices out of range, §8).
+* NO hypothesis on `align`: `LibLit.writeAsJsonLit_eq`, `LibLit.fromUtf8IsOk_eq` hold for every value
+  (`tucProgramLit2_align_irrelevant`).
+* NO hypothesis for the bounds parser (`parseArgv2_eq`: every argument vector;
+  `BoundsListLit.fromStrLit_toModel`), for the loops over `memmem::FindIter` (`findIterLit_eq`,
+  `TextLoops.*_refines`), for `matches` in `-l` (`line_idx` is an `i32`: `LineIdxOk` is an invariant
+  of the loop), for `print_bof` (`curr_field ≥ 1` and the slice indexes in range are invariants of
+  `cut_bytes_stream`: `forLoop2_eq`, `newChunk2_eq`), for `is_forward_only`.
+
+## Component theorems (each: every input, every option record; hypotheses as stated)
+
+* §1 `findIterLit_eq`, `fillWithFieldsLocationsLoop2_refines`, `…GreedyLoop2_refines`,
+  `compressDelimiterLoop2_refines`;
+* §2 `writeMaybeAsJsonLit2_eq`, `fieldToPrint2_eq`, `outputClosure2_eq`, `tryForEach2_eq`,
+  `trimStage2_eq`, `compressStage2_eq`, `fieldsStage2_eq` (as `Res4.ofRes` of the stage of
+  `Tuc.Model.CutStrLit`; `BagOK` where a regex twin slices), `complementLit_eq`, `unpackLit_eq`
+  (`BoundsOk`, fewer than 2³¹ fields), `emitStage2_eq`, `afterTrim2_eq`,
+  **`cutStrLit2_eq_cutStr`**, **`cutStrLit2_eq_cutStrLit`** (`BoundsOk`, `FieldsFit`, `BagOK`);
+* §3 `readAndCutStrWhole2_eq`, `cutLinesWhole2_eq`, `innerBody2_eq` … `cutLinesForwardOnlyWhole2_eq`,
+  `isForwardOnlyLit_eq`, `readAndCutLinesWhole2_eq`; §3b `cutBytesBody2_eq`, `readAndCutBytesLoop2_eq`
+  (input shorter than 2³¹ bytes); §3c `outputPartsLit2_eq`, `scanFor_inv`, `afterScan2_eq`,
+  `cutStrFastLaneLoop2_eq` (`PartsFit` on the number of delimiter bytes), `readAndCutTextAsBytesWhole2_eq`;
+  §3d `forBody2_eq`, `forLoop2_eq`, `remainingData2_eq`, `chunkBody2_eq`, `newChunk2_eq`,
+  `cutBytesStreamLoop2_eq` (no negative index), `readAndCutBytesStreamWhole2_eq`;
+* §4 `boundsArg2_eq`, `parseWith2_eq`, `parseArgv2_eq`; §5 `dispatchWhole2_eq`, `tucRunWhole2_eq`.
+
+## Corollaries (§6), transported
+
+`tucProgramLit2_never_panics`, `tucProgramLit2_run_status` (no panic site of any of the transcribed
+functions is reached, no loop runs out of fuel), `tucProgramLit2_chunk_independent` (`'`; also across
+two alignment oracles), `tucProgramLit2_align_irrelevant`; `inDomain2_of_flatten`, `inDomain2_of_not_run`,
+`inDomain2_iff_of_run`.
+
+§7: the 23 evaluations of `Tuc.Props.WholeLit` §10 against `tucProgramLit2` (two alignment oracles,
+same expected results) and 6 more that exercise the substituted callees.  §8: the witnesses.
+
+What remains in normal form: see the end of the header of `Tuc.Model.WholeLit2` (`matches` inside the
+`-M` helpers; library functions modelled by what they compute).
 -/
 
 namespace Tuc
@@ -1325,7 +1402,7 @@ def agree (argv : List String) (reads : List String) (expected : MainResult) : B
 #guard agree [] [] .help
 #guard agree ["-V"] ["a\n"] .version
 #guard agreeB (argvOf ["-c", "1"]) [[255], [], [10]] .unmodelled
--- (the 23rd line of §10 is the `example` below)
+-- (22 `#guard`s; the `example` of §10 is restated below)
 
 -- more of the substituted callees: `-t` / `-p` / `-g` (the loops of `trim`, `compress_delimiter`,
 -- `fill_with_fields_locations_greedy`), `-m` (`complement`), `--json` with an escape and a range to
@@ -1344,6 +1421,24 @@ example :
       tucMain yes (argvOf ["-d", ":", "-f", "2,1", "-r", "-"]) (readsOf ["a:b", ":c\nx", ":y:z\n"]) :=
   tucProgramLit2_eq _ _ _ _ (by decide +kernel)
 
+/-! … and the 6 `differ` lines of `Tuc.Props.WholeLit` §11 (an empty read in the middle: outside the
+domain, the program made of the Rust statements stops early, `tucMain` does not), with the same
+results for `tucProgramLit2` -/
+
+def differ (argv : List String) (reads : List String) (lit model : MainResult) : Bool :=
+  !programFits2B yes (argvOf argv) (readsOf reads)
+    && tucProgramLit2 align0 yes (argvOf argv) (readsOf reads) == lit
+    && tucProgramLit2 align1 yes (argvOf argv) (readsOf reads) == lit
+    && tucMain yes (argvOf argv) (readsOf reads) == model
+
+#guard differ ["-d", ":", "-f", "2,1", "-r", "-"] ["a:b\nc:", "", "d\n"]
+  (.run ⟨bytesOf "b-a\n-c\n", .fail⟩) (okS "b-a\nd-c\n")
+#guard differ ["-d", ":", "-f", "2"] ["a:b\nc:", "", "d\n"] (.run ⟨bytesOf "b\n\n", .fail⟩) (okS "b\nd\n")
+#guard differ ["-M", "1", "-d", ":", "-f", "2"] ["a:b\nc:", "", "d\n"] (okS "b\n\n") (okS "b\nd\n")
+#guard differ ["-l", "2:3"] ["a\nb", "", "b\nc\n", "d\n"] (okS "b\nb\n") (okS "bb\nc\n")
+#guard differ ["-l", "3,1"] ["a\nb", "", "b\nc\n", "d\n"] (.run Run.fail) (okS "c\na\n")
+#guard differ ["-b", "2:3"] ["ab", "", "cd", "e"] (.run Run.fail) (okS "bc")
+
 /-! ## 8. the new hypotheses cannot be dropped
 
 ### `inputFits2B`, `-b`: an input of 2³¹ bytes or more
@@ -1361,6 +1456,27 @@ open CutStrLitProps (oneOpen) in
 def optB1 : Opt :=
   { delimiter := [], boundsType := .bytes,
     bounds := { list := [.bound oneOpen], lastInteresting := .cont } }
+
+/-- one call of the closure of `cut_bytes` on a bound that the machine-integer `try_into_range`
+    refuses (stated for a variable bound: see the proof engineering note of `Tuc.Props.CutStrLit`) -/
+theorem cutBytesBody2_of_fail (data : Bytes) (opt : Opt) (b : UserBounds)
+    (hr : (BoundsLit.boundsOfModel b).tryIntoRange data.length = .fail)
+    (hfb : b.fallback = Option.none) (hg : opt.fallbackOob = Option.none) :
+    cutBytesBody2 data opt (.bound b) = Run.fail := by
+  unfold cutBytesBody2
+  simp only []
+  rw [hr]
+  simp only [hfb, hg]
+
+theorem cutBytesBody_of_whole (data : Bytes) (opt : Opt) (b : UserBounds)
+    (hr : b.tryIntoRange data.length = Option.some (0, data.length)) :
+    ReadLoops.cutBytesBody data opt (.bound b) = Run.ok data := by
+  unfold ReadLoops.cutBytesBody
+  simp only []
+  rw [hr]
+  simp only [Nat.zero_le, Nat.le_refl, and_self, if_true, slice, List.drop_zero, Nat.sub_zero,
+    List.take_length]
+  simp [Run.seq, Run.ok, Run.empty]
 
 open CutStrLitProps (oneOpen) in
 /-- **`-b 1:` on an input of `2³¹ ≤ len mod 2³²` bytes**: the engine made of the Rust statements with
@@ -1384,13 +1500,8 @@ theorem readAndCutBytesLoop2_length_necessary (data : Bytes)
     unfold cutBytesLit2
     rw [hemp, hl]
     simp only [Bool.false_eq_true, if_false, ReadLoops.tryForEach]
-    have hb : cutBytesBody2 data optB1 (.bound oneOpen) = Run.fail := by
-      unfold cutBytesBody2
-      simp only []
-      have := CutStrLitProps.resolve_oneOpen_fail data.length h
-      unfold CutStrLit.resolve at this
-      rw [this]
-      rfl
+    have hb : cutBytesBody2 data optB1 (.bound oneOpen) = Run.fail :=
+      cutBytesBody2_of_fail data optB1 oneOpen (CutStrLitProps.resolve_oneOpen_fail data.length h) rfl rfl
     rw [hb]
     rfl
   · unfold ReadLoops.readAndCutBytesLoop
@@ -1398,13 +1509,8 @@ theorem readAndCutBytesLoop2_length_necessary (data : Bytes)
     unfold ReadLoops.cutBytesLit
     rw [hemp, hl]
     simp only [Bool.false_eq_true, if_false, ReadLoops.tryForEach]
-    have hb : ReadLoops.cutBytesBody data optB1 (.bound oneOpen) = Run.ok data := by
-      unfold ReadLoops.cutBytesBody
-      simp only []
-      rw [CutStrLitProps.tryIntoRange_oneOpen data.length hpos]
-      simp only [Nat.zero_le, Nat.le_refl, and_self, if_true, slice, List.drop_zero, Nat.sub_zero,
-        List.take_length]
-      simp [Run.seq, Run.ok, Run.empty]
+    have hb : ReadLoops.cutBytesBody data optB1 (.bound oneOpen) = Run.ok data :=
+      cutBytesBody_of_whole data optB1 oneOpen (CutStrLitProps.tryIntoRange_oneOpen data.length hpos)
     rw [hb]
     simp [Run.seq, Run.ok, Run.empty]
 
@@ -1472,6 +1578,58 @@ counter `curr_field` still fits, `CounterFits` holds): the machine-integer trans
 ("Out of bounds: 1") for the bound `1:`, the transcription of `Tuc.Model.FastLoop` does not.
 Reachable with a record of 2 GiB; the same cast as above. -/
 
+/-- `output_parts` on a bound that the machine-integer `try_into_range` refuses (variable bound) -/
+theorem outputPartsLit2_of_fail (line : Bytes) (b : UserBounds) (fields : List Nat) (opt : FastOpt)
+    (h1 : 1 ≤ fields.length)
+    (hr : (BoundsLit.boundsOfModel b).tryIntoRange (fields.length - 1) = .fail)
+    (hfb : b.fallback = Option.none) (hg : opt.fallbackOob = Option.none) :
+    outputPartsLit2 line b fields opt = Run.fail := by
+  unfold outputPartsLit2 checkedSub
+  rw [if_pos h1]
+  simp only [FastLoop.orPanic]
+  rw [hr]
+  have ho : outputOf2 line b fields opt Res.fail = .ok Option.none := by
+    unfold outputOf2
+    simp only []
+    rw [hfb, hg]
+  rw [ho]
+
+/-- `output_parts` of `Tuc.Model.FastLoop` on a bound that resolves never returns `Err` -/
+theorem outputPartsLit_of_some (line : Bytes) (b : UserBounds) (fields : List Nat) (opt : FastOpt)
+    (h1 : 1 ≤ fields.length) (r : Nat × Nat)
+    (hr : b.tryIntoRange (fields.length - 1) = Option.some r) :
+    FastLoop.outputPartsLit line b fields opt ≠ Run.fail := by
+  unfold FastLoop.outputPartsLit checkedSub
+  rw [if_pos h1]
+  simp only [FastLoop.orPanic]
+  rw [hr]
+  unfold FastLoop.outputOf
+  simp only []
+  cases FastLoop.index fields r.1 with
+  | panic => simp [Outcome.bind, Run.panic, Run.fail]
+  | hang => simp [Outcome.bind, Run.hang, Run.fail]
+  | ok a =>
+    simp only [Outcome.bind]
+    cases FastLoop.index fields r.2 with
+    | panic => simp [Run.panic, Run.fail]
+    | hang => simp [Run.hang, Run.fail]
+    | ok b' =>
+      simp only []
+      cases checkedSub b' 1 with
+      | panic => simp [Run.panic, Run.fail]
+      | hang => simp [Run.hang, Run.fail]
+      | ok c =>
+        simp only []
+        cases sliceRange line a c with
+        | panic => simp [Run.panic, Run.fail]
+        | hang => simp [Run.hang, Run.fail]
+        | ok part =>
+          simp only []
+          intro he
+          have := congrArg Run.status he
+          simp only [Run.seq, Run.ok, Run.fail] at this
+          split at this <;> cases this
+
 open CutStrLitProps (oneOpen) in
 theorem outputPartsLit2_length_necessary (line : Bytes) (fields : List Nat) (opt : FastOpt)
     (hfb : opt.fallbackOob = Option.none) (h1 : 1 ≤ fields.length)
@@ -1482,49 +1640,10 @@ theorem outputPartsLit2_length_necessary (line : Bytes) (fields : List Nat) (opt
     cases hz : fields.length - 1 with
     | zero => rw [hz] at h; simp at h
     | succ n => exact Nat.succ_pos n
-  constructor
-  · unfold outputPartsLit2 checkedSub
-    rw [if_pos h1]
-    simp only [FastLoop.orPanic]
-    have := CutStrLitProps.resolve_oneOpen_fail (fields.length - 1) h
-    unfold CutStrLit.resolve at this
-    rw [this]
-    have ho : outputOf2 line oneOpen fields opt Res.fail = .ok Option.none := by
-      unfold outputOf2
-      simp only []
-      rw [hfb]
-      rfl
-    rw [ho]
-  · unfold FastLoop.outputPartsLit checkedSub
-    rw [if_pos h1]
-    simp only [FastLoop.orPanic]
-    rw [CutStrLitProps.tryIntoRange_oneOpen _ hpos]
-    unfold FastLoop.outputOf
-    simp only []
-    cases FastLoop.index fields 0 with
-    | panic => simp [Outcome.bind, Run.panic, Run.fail]
-    | hang => simp [Outcome.bind, Run.hang, Run.fail]
-    | ok a =>
-      simp only [Outcome.bind]
-      cases FastLoop.index fields (fields.length - 1) with
-      | panic => simp [Run.panic, Run.fail]
-      | hang => simp [Run.hang, Run.fail]
-      | ok b =>
-        simp only []
-        cases checkedSub b 1 with
-        | panic => simp [Run.panic, Run.fail]
-        | hang => simp [Run.hang, Run.fail]
-        | ok c =>
-          simp only []
-          cases sliceRange line a c with
-          | panic => simp [Run.panic, Run.fail]
-          | hang => simp [Run.hang, Run.fail]
-          | ok part =>
-            simp only []
-            intro he
-            have := congrArg Run.status he
-            simp only [Run.seq, Run.ok, Run.fail] at this
-            split at this <;> cases this
+  exact ⟨outputPartsLit2_of_fail line oneOpen fields opt h1
+      (CutStrLitProps.resolve_oneOpen_fail (fields.length - 1) h) rfl hfb,
+    outputPartsLit_of_some line oneOpen fields opt h1 _
+      (CutStrLitProps.tryIntoRange_oneOpen _ hpos)⟩
 
 /-! ### the contract of `find_iter` (`BagOK`), for `cut_str` taken alone
 
@@ -1552,12 +1671,13 @@ def optSpaceBag : Opt :=
     bounds := { list := [.bound CutStrLitProps.oneOpen], lastInteresting := .cont } }
 
 /-- the hypotheses of `cutStrLit2_eq_cutStrLit` hold on it … -/
-example : BoundsOk optSpaceBag.bounds.list ∧ BagOK optSpaceBag ∧ FieldsFit [32, 97, 32, 32, 98, 32] optSpaceBag :=
-  ⟨(CutStrLitProps.boundsOkB_iff _).mp (by decide), by intro bag hb; cases hb; exact Re.bag_ok _,
-   (CutStrLitProps.fieldsFit_iff _ _).mp (by decide +kernel)⟩
+example : BoundsOk optSpaceBag.bounds.list ∧ BagOK optSpaceBag :=
+  ⟨(CutStrLitProps.boundsOkB_iff _).mp (by decide), by intro bag hb; cases hb; exact Re.bag_ok _⟩
 
-/-- … and both sides are the expected bytes (`trim_regex`, `compress_delimiter_with_regex`,
-    `replace_all`, `fill_with_fields_locations` at statement level) -/
+#guard fieldsFitB [32, 97, 32, 32, 98, 32] optSpaceBag
+
+-- … and both sides are the expected bytes (`trim_regex`, `compress_delimiter_with_regex`,
+-- `replace_all`, `fill_with_fields_locations` at statement level)
 #guard (cutStrLit2 align1 [32, 97, 32, 32, 98, 32] optSpaceBag [] [] [10]).1 == Run.ok [97, 95, 98, 10]
 #guard (CutStrLit.cutStrLit [32, 97, 32, 32, 98, 32] optSpaceBag [] [] [10]).1 == Run.ok [97, 95, 98, 10]
 
